@@ -239,6 +239,16 @@ impl DiscoveryDB {
     if active_disposal {
       self.remove_topic_reader_with_prefix(guid_prefix);
       self.remove_topic_writer_with_prefix(guid_prefix);
+      // The participant may have timed out earlier, so that its endpoints are
+      // parked in the attic. It has now told us it is gone for good: forget
+      // those too, or they would stay there forever and a late (reordered or
+      // duplicated) announcement would bring them back.
+      self
+        .external_topic_readers_attic
+        .retain(|guid, _| guid.prefix != guid_prefix);
+      self
+        .external_topic_writers_attic
+        .retain(|guid, _| guid.prefix != guid_prefix);
     } else {
       // move to attic
       move_by_guid_prefix(
